@@ -277,7 +277,7 @@ func wireNumber(s string) (*big.Int, bool) {
 	return n, ok
 }
 
-var replyCode = map[string]string{"ack": "ack", "item-not-found": "inf", "unexpected-request": "unx", "bad-request": "bad", "resource-constraint": "res"}
+var replyCode = map[string]string{"ack": "ack", "item-not-found": "inf", "unexpected-request": "unx", "bad-request": "bad", "resource-constraint": "res", "not-acceptable": "na"}
 
 // ---------------------------------------------------------------- receiver
 
